@@ -53,23 +53,26 @@ theorem C07b_lookups {G : Geo} {n : Index.Net} (hb : Built n) (o : Id) (t : T) :
 
 theorem C07b_wf {G : Geo} {n : Index.Net} (hb : Built n) : WfEnv (envOf G n) := wf_envOf G (C07b_built_sync hb)
 
-/-- what the property sentence says of a state: every obstacle of the scenario carries at every step of its horizon the set
+/-- what the property sentence says of a state: every obstacle of the scenario (static, trajectory-predicted, unpredicted; a
+    set-based prediction is outside the property and is provably in no registry) carries at every step of its horizon the set
     of lanelets containing its centre and the set of lanelets its occupancy meets, and every lanelet's registries are exactly
     the inverse (static: the one occupancy; dynamic: per time step of the horizon) -/
 def GeoCorrect (G : Geo) (n : Index.Net) (s : St) : Prop :=
-  (∀ o, o ∈ s.statics ++ s.dynamics → ∀ t, InHorizon (envOf G n) o t → GeoAssigned G n (s.fwd o) o t) ∧
-  (∀ l t o, memD s.dreg l t o ↔ (o ∈ s.dynamics ∧ InHorizon (envOf G n) o t ∧ Meets G n o t l)) ∧
+  (∀ o, o ∈ s.statics ++ s.dynamics → G.kind o ≠ Kind.dynSet → ∀ t, InHorizon (envOf G n) o t →
+      GeoAssigned G n (s.fwd o) o t) ∧
+  (∀ l t o, memD s.dreg l t o ↔ (o ∈ s.dynamics ∧ G.kind o ≠ Kind.dynSet ∧ InHorizon (envOf G n) o t ∧ Meets G n o t l)) ∧
   (∀ l o, o ∈ s.sreg l ↔ (o ∈ s.statics ∧ Meets G n o (G.t0 o) l))
 
 theorem geoCorrect_of {G : Geo} {n : Index.Net} {s : St} (hs : Index.Sync n) (hi : Inv (envOf G n) s)
-    (ha : ∀ o, o ∈ s.statics ++ s.dynamics → ∀ t, InHorizon (envOf G n) o t → Assigned (envOf G n) (s.fwd o) o t) :
+    (ha : ∀ o, o ∈ s.statics ++ s.dynamics → G.kind o ≠ Kind.dynSet → ∀ t, InHorizon (envOf G n) o t →
+      Assigned (envOf G n) (s.fwd o) o t) :
     GeoCorrect G n s := by
   obtain ⟨r1, r2⟩ := registry_exact_of_assigned hi ha
-  refine ⟨fun o ho t ht => geoAssigned_of_assigned hs (ha o ho t ht), fun l t o => ?_, fun l o => ?_⟩
+  refine ⟨fun o ho hset t ht => geoAssigned_of_assigned hs (ha o ho hset t ht), fun l t o => ?_, fun l o => ?_⟩
   · rw [r1]
     constructor
-    · rintro ⟨h1, h2, h3⟩; exact ⟨h1, h2, (mem_shpOf hs o t l).mp h3⟩
-    · rintro ⟨h1, h2, h3⟩; exact ⟨h1, h2, (mem_shpOf hs o t l).mpr h3⟩
+    · rintro ⟨h1, hset, h2, h3⟩; exact ⟨h1, hset, h2, (mem_shpOf hs o t l).mp h3⟩
+    · rintro ⟨h1, hset, h2, h3⟩; exact ⟨h1, hset, h2, (mem_shpOf hs o t l).mpr h3⟩
   · rw [r2]
     constructor
     · rintro ⟨h1, h3⟩; exact ⟨h1, (mem_shpOf hs o (G.t0 o) l).mp h3⟩
@@ -80,7 +83,7 @@ theorem C07b_assign_geometric {G : Geo} {n : Index.Net} {s s' : St} (hb : Built 
     (h : assign (envOf G n) none none false s = .ok s') : GeoCorrect G n s' := by
   obtain ⟨hi', e2, e3⟩ := inv_assign hi h
   have ha := C07_assign_correct hi h
-  exact geoCorrect_of (C07b_built_sync hb) hi' (fun o ho => ha o (by rw [← e2, ← e3]; exact ho))
+  exact geoCorrect_of (C07b_built_sync hb) hi' (fun o ho _ => ha o (by rw [← e2, ← e3]; exact ho))
 
 /-- **open(lanelet_assignment=True), geometrically** (XML: factories first, then `add_objects(list)`) -/
 theorem C07b_open_xml_geometric {G : Geo} {n : Index.Net} {s s' : St} (hb : Built n) (hi : Inv (envOf G n) s)
@@ -147,11 +150,13 @@ theorem C07b_registry_sound {G : Geo} {n : Index.Net} (hb : Built n) (ops : List
     obtain ⟨_, h2, h3⟩ := (hi.invS l o).mp hm
     exact ⟨h2, (mem_shpOf hs o (G.t0 o) l).mp (RecShapeS.mem_lanelets (hi.coh o) h3)⟩
 
-/-- on a built network the full assignment and `remove_obstacle` never raise, in any reachable state: the lookups cannot fail
+/-- on a built network the full assignment (no set-based prediction in the scenario) and `remove_obstacle` never raise, in any
+    reachable state: the lookups cannot fail
     (no `AttributeError` of a missing tree, no `KeyError` of the reverse map) and the bookkeeping cannot either -/
 theorem C07b_total {G : Geo} {n : Index.Net} (hb : Built n) (ops : List Op) (hops : ∀ op ∈ ops, op.ShapeBased)
     (s : St) (h : run (envOf G n) St.init ops = .ok s) :
-    (∃ s', assign (envOf G n) none none false s = .ok s') ∧ (∀ o, ∃ s', remove (envOf G n) s o = .ok s') ∧
+    ((∀ o, o ∈ s.dynamics → G.kind o ≠ Kind.dynSet) → ∃ s', assign (envOf G n) none none false s = .ok s') ∧
+    (∀ o, ∃ s', remove (envOf G n) s o = .ok s') ∧
     (∀ (p : Pt), ∃ r, Index.findByPosition G.within n [p] = .ok r) ∧
     (∀ (sh : Shape), ∃ r, Index.findByShape G.meets n sh = .ok r) := by
   have hs := C07b_built_sync hb
